@@ -292,6 +292,10 @@ func (g *G) hdLine(base string, dash bool) []Part {
 			ps = append(ps, Lit(g.litText(1+g.n(5))+" "))
 		}
 	}
+	if g.p(1, 6) {
+		// the line ends with an expansion or an escape directly followed by the delimiter's text: body, not the terminator
+		ps = append(ps, []Part{{K: "param", S: "x", Braces: true}, {K: "esc", S: "$"}, {K: "arith", Expr: []Atom{{P: Lit("1+2")}}}, {K: "esc", S: `\`}}[g.n(4)], Lit(base))
+	}
 	if !dash && g.p(1, 8) {
 		ps = append([]Part{Lit("\t" + base)}, ps...)
 		if len(ps) == 1 {
@@ -307,6 +311,19 @@ func (g *G) word(value bool) *Word {
 	defer func() { g.inWord-- }()
 	if value && g.p(1, 6) {
 		return W() // empty value: x=
+	}
+	if value && g.p(1, 8) {
+		// further "=" in the value, also as the last character of a literal: only the first one separates
+		w := W(Lit(pickS(g, []string{"a=", "=", "-DX=", "a=b=", "==", "a=b"})))
+		switch g.n(4) {
+		case 0:
+			w.Parts = append(w.Parts, Part{K: "param", S: "x"})
+		case 1:
+			w.Parts = append(w.Parts, Part{K: "dq", Sub: []Part{{K: "param", S: "y", Braces: true}}})
+		case 2:
+			w.Parts = append(w.Parts, Part{K: "sq", S: "q="}, Lit("=r"))
+		}
+		return w
 	}
 	if g.p(1, 2) {
 		if value {
